@@ -18,16 +18,32 @@ let handle = function
     let (c, key, iv, info) = v2_setup sym aead cs (bytes_of_hex sk) (bytes_of_hex salt) in
     let (out, ok) = Seipd2.seipd2_stream_dec (Prims.aopen aead sym) c key iv info (bytes_of_hex ct) in
     (if ok then "OK " else "ERR ") ^ hex_of_bytes out
-  | ["v1dec"; sym; key; mode; max; ct] ->
+  | "v1dec" :: sym :: key :: mode :: max :: ct :: sched ->
     let symn = nn sym in
     let k = bytes_of_hex key in
     let bs = n_of_int (match int_of_string sym with 7 | 8 | 9 | 10 | 11 | 12 | 13 -> 16 | _ -> 8) in
-    let e = Prims.enc_block symn k in
+    (* the block cipher under this key, remembered per block: the specification and the machine both ask *)
+    let memo = Hashtbl.create 4096 in
+    let e b = match Hashtbl.find_opt memo b with Some r -> r | None -> let r = Prims.enc_block symn k b in Hashtbl.add memo b r; r in
     let sha1 = Prims.hash (n_of_int 2) in
+    let ctb = bytes_of_hex ct in
     let (out, ok) =
-      if mode = "0" then Cfb.seipd1_checkfirst e bs sha1 (nn max) (bytes_of_hex ct)
-      else Cfb.seipd1_streaming e bs sha1 (bytes_of_hex ct) in
-    (if ok then "OK " else "ERR ") ^ hex_of_bytes out
+      if mode = "0" then Cfb.seipd1_checkfirst e bs sha1 (nn max) ctb
+      else Cfb.seipd1_streaming e bs sha1 ctb in
+    let spec = (if ok then "OK " else "ERR ") ^ hex_of_bytes out in
+    (match sched with
+     | [consumer; reqs] ->
+       (* the state machine of the theorems C03_v1_*_machine_is_spec under the consumer's own request sizes *)
+       let rl = if reqs = "_" || reqs = "" then [] else Stdlib.List.map int_of_string (Stdlib.String.split_on_char ',' reqs) in
+       let ra = Array.of_list rl in
+       let req (i : BinNums.coq_N) : BinNums.coq_N =
+         if consumer = "0" || Array.length ra = 0 then n_of_int 65536
+         else n_of_int (Stdlib.max 1 (Stdlib.min 65536 ra.((int_of_n i) mod Array.length ra))) in
+       let m = if mode = "0" then Some (nn max) else None in
+       let (mo, oc) = Seipd1Machine.run_machine e bs sha1 m req ctb in
+       let mach = (match oc with Seipd1Machine.Clean -> "OK " | Seipd1Machine.Failed -> "ERR " | Seipd1Machine.OutOfFuel -> "FUEL ") ^ hex_of_bytes mo in
+       if mach = spec then spec else "MODEL-SPLIT spec=" ^ Stdlib.String.sub spec 0 (Stdlib.min 40 (Stdlib.String.length spec)) ^ " machine=" ^ Stdlib.String.sub mach 0 (Stdlib.min 40 (Stdlib.String.length mach))
+     | _ -> spec)
   | _ -> "MODEL-ERROR unknown op"
 
 let () = run handle
